@@ -18,6 +18,11 @@ import time
 
 ROOT = os.path.dirname(os.path.dirname(os.path.abspath(__file__)))
 PY = os.path.join(ROOT, '.venv', 'bin', 'python')
+# The code under test is /repo's working tree.  VERIF_REPO=<dir> points the same checks at another checkout (used only to try
+# seeded changes in scratch worktrees without touching /repo; registered commands never set it).
+REPO = os.environ.get('VERIF_REPO', '/repo').rstrip('/')
+SRC = REPO + '/src'
+PYPATH = ROOT if REPO == '/repo' else SRC + os.pathsep + ROOT
 
 
 def load_known():
@@ -32,7 +37,7 @@ def run_worker(modname, ob, extra, tier, scale=1.0):
     cmd = [PY, '-m', 'vlib.chworker', modname, ob.name, '--timeout-scale', str(scale)]
     for e in extra:
         cmd += ['--exclude', e]
-    env = dict(os.environ, VERIF_TIER=tier, PYTHONPATH=ROOT, PYTHONHASHSEED='0')
+    env = dict(os.environ, VERIF_TIER=tier, PYTHONPATH=PYPATH, PYTHONHASHSEED='0')
     hard = ob.timeout * scale * (2.2 if ob.twin and ob.kind == 'crosshair' else 1.2) + 90
     t0 = time.time()
     try:
@@ -52,7 +57,7 @@ def run_worker(modname, ob, extra, tier, scale=1.0):
 def run_replay(modname, obname, args_repr, tier):
     """Re-execute one obligation on concrete arguments in plain CPython (no CrossHair). -> dict(ok, detail, functions)"""
     cmd = [PY, '-m', 'vlib.replay', modname, obname, args_repr]
-    env = dict(os.environ, VERIF_TIER=tier, PYTHONPATH=ROOT, PYTHONHASHSEED='0')
+    env = dict(os.environ, VERIF_TIER=tier, PYTHONPATH=PYPATH, PYTHONHASHSEED='0')
     try:
         p = subprocess.run(cmd, env=env, cwd=ROOT, capture_output=True, text=True, timeout=300)
         idx = p.stdout.rfind('@@REPLAY@@')
@@ -168,8 +173,8 @@ def main():
     t0 = time.time()
     try:
         import DocumentTemplate
-        if not DocumentTemplate.__file__.startswith('/repo/src'):
-            print('harness error: DocumentTemplate imported from %s, not /repo/src' % DocumentTemplate.__file__)
+        if not DocumentTemplate.__file__.startswith(SRC + '/'):
+            print('harness error: DocumentTemplate imported from %s, not %s' % (DocumentTemplate.__file__, SRC))
             return 3
         mod = importlib.import_module(modname)
     except Exception as e:
